@@ -120,3 +120,14 @@ Definition get_solution (m : mstate) : mstate * option nat :=
   | None => if ms_solved m then ({| ms_solved := true; ms_cached := Some (ms_value m); ms_value := ms_value m |}, Some (ms_value m))
             else (m, None)                       (* check_is_solved raises *)
   end.
+
+(* the other exported classes that take part in the histories: NumPathsOptimization forwards its keyword arguments
+   (optimization_options among them) to the k-model class it wraps, built in solve(); MinGenSet and MinSetCover have no
+   optimization_options parameter at all (numbers / universe / subsets lists are copied or only read) *)
+Inductive participant := PModel (c : cls) | PNumPaths (inner : cls) | PMinGenSet | PMinSetCover.
+Definition op_of (p : participant) (pass sup hc solve : bool) : op :=
+  match p with
+  | PModel c => {| o_cls := c; o_pass_opts := pass; o_sup := sup; o_hc := hc; o_solve := solve |}
+  | PNumPaths c => {| o_cls := c; o_pass_opts := pass && solve; o_sup := false; o_hc := hc; o_solve := solve |}
+  | PMinGenSet | PMinSetCover => {| o_cls := CMinErrorFlow; o_pass_opts := false; o_sup := false; o_hc := false; o_solve := solve |}
+  end.
